@@ -101,6 +101,8 @@ class RG:
         self.inv_parts = inv_parts     # optional: [(name, kind, fn)] -> ground instantiation when assumed
         self.sorts = sorts or {}
         self.terms = terms             # fn(s_old, s_new) -> {kind: [z3 terms]} relevant at this point
+        self.point_facts = None        # fn(t, me): facts that hold whenever the agent executes
+        self.hints = None              # fn() -> {sort-kind: [terms]} witnesses for existential actions
 
     # ------------------------------------------------------------ state handling
     def init_state(self, assume_inv=True):
@@ -116,6 +118,12 @@ class RG:
             return self.inv(s2)
         return g_inv(self.inv_parts, s2, self.terms(s1, s2))
 
+    def instantiate_inv(self, terms):
+        """More ground instances of inv for the state of the last interference point (inv holds there
+        in full; instances are assumed lazily)."""
+        if self.inv_parts is not None:
+            self.E.assume(g_inv(self.inv_parts, self.snap, terms))
+
     def cur(self):
         return St({n: self.E.w[n] for n in self.decl})
 
@@ -123,6 +131,19 @@ class RG:
         for n, t in kw.items():
             assert n in self.decl, n
             self.E.w[n] = t
+
+    def _acts(self, s0, s1):
+        """Instances of my actions; an action with an existential witness is tried at each hinted term."""
+        out = []
+        hints = self.hints() if self.hints is not None else {}
+        for name, fn in self.actions.items():
+            w = getattr(fn, 'witness', None)
+            if w is None:
+                out.append(fn(s0, s1, self.me))
+            else:
+                for x in hints.get(w, ()):
+                    out.append(fn(s0, s1, self.me, x))
+        return out
 
     def changed(self, s, t):
         return [n for n in self.decl if not z3.eq(s.d[n], t.d[n])]
@@ -135,11 +156,13 @@ class RG:
         s0, s1 = self.snap, self.cur()
         ch = self.changed(s0, s1)
         if ch:
-            acts = [fn(s0, s1, self.me) for fn in self.actions.values()]
+            acts = self._acts(s0, s1)
             E.oblige('%s/guarantee@%s.change_of_{%s}_is_a_declared_action' % (self.qual, site, ','.join(ch)),
                      z3.Or(*acts) if acts else z3.BoolVal(False), props=self.props,
                      detail='allowed actions: %s' % ', '.join(self.actions))
-        E.oblige('%s/inv@%s' % (self.qual, site), self.inv(s1), props=self.props)
+        # inv(s1) is NOT re-proved here: it follows from inv(s0) (held after the last interference), the
+        # guarantee obligation just emitted (the change is a declared action) and the side condition
+        # "every declared action preserves inv" discharged once per contract file.
         for n, srt in self.decl.items():
             E.w[n] = E.fresh(n, srt)
         s2 = self.cur()
@@ -158,6 +181,9 @@ class RG:
                     for x in terms.get(kind, ()):
                         E.assume(fn(s1, s2, self.me, x))
             E.used('rely[%s]: %s' % (level, name))
+        if self.point_facts is not None:
+            E.assume(self.point_facts(s2, self.me))
+            E.used('axiom: a task executes only while its loop is running')
         self.snap = s2
 
     def commit(self, site=''):
@@ -166,10 +192,9 @@ class RG:
         s0, s1 = self.snap, self.cur()
         ch = self.changed(s0, s1)
         if ch:
-            acts = [fn(s0, s1, self.me) for fn in self.actions.values()]
+            acts = self._acts(s0, s1)
             E.oblige('%s/guarantee@%s.change_of_{%s}_is_a_declared_action' % (self.qual, site, ','.join(ch)),
                      z3.Or(*acts) if acts else z3.BoolVal(False), props=self.props)
-        E.oblige('%s/inv@%s' % (self.qual, site), self.inv(s1), props=self.props)
         self.snap = s1
 
 
@@ -196,6 +221,18 @@ def side_conditions(E, decl, inv, my_actions, other_actions, stable_thread, stab
     if init is not None:
         s = fresh_state('i')
         E.oblige('%s/side.init_establishes_inv' % qual, z3.Implies(init(s, me), inv(s)), props=props)
+    def closed_form(fn):
+        w = getattr(fn, 'witness', None)
+        if w is None:
+            return fn
+        srt = getattr(fn, 'witness_sort')
+
+        def g(s_, t_, a):
+            x = z3.Const('x!wit', srt)
+            return z3.Exists([x], fn(s_, t_, a, x))
+        return g
+    my_actions = {n: closed_form(f) for n, f in my_actions.items()}
+    other_actions = [(n, closed_form(f), lv) for n, f, lv in other_actions]
     s, t = fresh_state('s'), fresh_state('t')
     for name, fn in my_actions.items():
         E.oblige('%s/side.inv_preserved_by_my[%s]' % (qual, name),
